@@ -95,9 +95,9 @@ def trees4_and_ring() -> list:
 def fam_params(quick: bool) -> list:
     """SABRE parameter grid x layout passes on the sparse 4-vertex graphs."""
     cases = []
-    graphs = trees4_and_ring() if quick else M.labelled_connected_graphs(4)
+    graphs = trees4_and_ring()
     for edges in graphs:
-        for w in (4,) if quick else (3, 4):
+        for w in (4,):
             alpha = alphabet(w, 'none', ordered=False)
             for ops in seqs(alpha, 2 if quick else 3, 2):
                 for p in PARAMS:
@@ -197,30 +197,49 @@ def fam_bigger() -> list:
 
 
 def fam_pam(quick: bool) -> list:
-    """The level-4 SeqPAM sequence on width 3 (every block permutation is
-    re-synthesised: seconds per run)."""
+    """The level-4 SeqPAM sequence (build_seqpam_mapping_optimization_workflow
+    exactly as _opt4_workflow calls it).  Every block permutation is
+    re-synthesised: ~1 s per run while all blocks are 2 qudits wide, minutes
+    on one core as soon as a block has 3 qudits.  Quick: 2-qudit blocks only
+    (blocks kept apart by barriers or disjointness); thorough adds a few
+    3-qudit-block cases, each its own work item."""
     cases = []
-    machines = [(3, M.line(3)), (4, M.star(4)), (4, M.line(4))]
-    circuits = [
+    m3 = [(3, M.line(3)), (4, M.star(4)), (4, M.line(4)),
+          (4, [[0, 3], [3, 1], [1, 2]])]
+    two = [
         [['g', 0, 2]],
-        [['g', 0, 2], ['g', 1, 0]],
-        [['g', 2, 0, 1]],
-        [['g', 0, 1], ['g', 1, 2], ['g', 2, 0]],
+        [['g', 2, 0], ['g', 0, 2]],
+        [['g', 0, 2], ['b', 0, 1, 2], ['g', 1, 0]],
+        [['g', 0, 2], ['b', 0, 2], ['g', 1, 2]],
+        [['g', 1, 2], ['b', 0, 1, 2], ['g', 0, 2], ['b', 0, 1, 2],
+         ['g', 0, 1]],
     ]
-    if not quick:
-        alpha = alphabet(3, 'none', ordered=False) + [['g', 1]]
-        circuits = [c for c in seqs(alpha, 3) if multi(c)]
-        circuits += [[['g', 0, 2], ['b', 0, 1, 2], ['g', 1, 0]],
-                     [['g', 0, 1], ['b', 0, 2], ['g', 1, 2], ['g', 0, 2]]]
-    for ops in circuits:
-        for m, edges in machines if not quick else machines[:2]:
+    for ops in two:
+        for m, edges in m3:
             cases.append(case('pam', 3, ops, m, edges))
+    m4 = [(4, M.line(4)), (4, M.star(4)), (5, M.line(5))]
+    two4 = [
+        [['g', 0, 3], ['g', 1, 2]],
+        [['g', 0, 3], ['g', 2, 1], ['b', 0, 1, 2, 3], ['g', 0, 1],
+         ['g', 3, 2]],
+        [['g', 0, 2], ['b', 0, 1], ['g', 1, 3], ['b', 0, 1, 2, 3],
+         ['g', 0, 3]],
+    ]
+    for ops in two4:
+        for m, edges in m4[:2] if quick else m4:
+            cases.append(case('pam', 4, ops, m, edges))
     if not quick:
-        # two blocks: width 4 on line-4 / star-4
+        three = [
+            [['g', 0, 2], ['g', 1, 0]],
+            [['g', 2, 0, 1]],
+            [['g', 0, 1], ['g', 1, 2], ['g', 2, 0]],
+        ]
+        for ops in three:
+            for m, edges in m3[:3]:
+                cases.append(case('pam', 3, ops, m, edges))
         for ops in ([['g', 0, 1], ['g', 2, 3], ['g', 1, 2]],
-                    [['g', 0, 3], ['g', 1, 2], ['g', 0, 2], ['g', 1, 3]],
-                    [['g', 0, 1, 2], ['g', 1, 3], ['g', 3, 0]]):
-            for m, edges in ((4, M.line(4)), (4, M.star(4))):
+                    [['g', 0, 1, 2], ['b', 0, 1, 2, 3], ['g', 1, 3]]):
+            for m, edges in m4[:2]:
                 cases.append(case('pam', 4, ops, m, edges))
     return cases
 
